@@ -29,6 +29,23 @@ CHECKS = {
     design_ref="DESIGN.md section 4 / C02",
     technique="Coq proof (partial) + per-run structural correspondence of objective map/offset/direction + best-extension objective oracle on the implementation",
     note=TB),
+ "C04": dict(
+    category="translation_validation",
+    text="Every solution returned by any of the five built-in entry points (solve_milp_lp_problem, auto_solver, solve_real_lp_problem_micro_lp/_clarabel/_slow_simplex) "
+         "on seeded small models is converted exactly to rationals and passed to check_solution, a checker proved sound in Coq (axiom-free): rows and domains "
+         "(bounds, integrality, 0/1) within 1e-6, objective = objective function incl. offset, exactly one value per variable, named-row activities = row left-hand sides.",
+    design_ref="DESIGN.md section 4 / C04",
+    technique="Coq-verified checker (soundness theorem over Q) + per-output translation validation of every solver entry point in watchdogged worker processes",
+    note="Trusted: Coq kernel + vm_compute; exact f64->Q conversion and printers; the solvers themselves (microlp, Clarabel via good_lp) are external crates and are validated, not modelled."),
+ "C05": dict(
+    category="translation_validation",
+    text="Certificate checkers proved sound in Coq over Q (axiom-free): optimality (primal point + dual vector, weak duality), infeasibility (Farkas), unboundedness "
+         "(feasible point + improving recession ray). An untrusted exact solver (z3) produces certificates; every accepted certificate fixes the true verdict/optimum of the model, "
+         "against which each built-in solver's verdict and value (1e-6 relative) are compared; all-integer models are decided by exhaustive enumeration inside Coq; hangs are caught by a process watchdog. "
+         "Known findings F18/F19 (microlp) and F20 (Clarabel status mapping) are recorded; F8 and the Satisfy-objective defect were repaired.",
+    design_ref="DESIGN.md section 4 / C05",
+    technique="Coq-verified LP certificate checkers + untrusted exact solver as certificate producer + per-model translation validation of every solver entry point",
+    note="Trusted: Coq kernel + vm_compute; Cert/Bridge.v translation (bounds as rows) and integer-box enumeration (executed, not yet proved); JSON/Gallina printers; Python comparison. z3 is NOT trusted. Mixed-integer models are certified only when their relaxation is infeasible."),
  "C07": dict(
     category="proof",
     text="Proved in Coq for all models and all real assignments: bounds_of is sound inside the box; every propagation step (affine rows with prefix/suffix sums, "
